@@ -2,6 +2,7 @@
    plus layout requests served by the Coq builder C04.Model.scan_layout:
      L arch os base ip0 n (gap ra)*n nmods (mbase msize sym)*
    answer:  <case line> ## <expected chain: instr,resume,sp|...> ## <scan_wf_layout: 0|1>
+   and by the mixed CFI / scan builder C04.Model.mix_layout (`M` lines, see mix_line below)
    ---- c05 description follows ----
    c05 model driver.  One case per line (all numbers decimal):
      arch os ip sp fp lr ngp gp_1..gp_ngp valid base hexbytes nmods (mbase msize sym)*nmods
@@ -144,13 +145,46 @@ let layout_line (toks : string array) : string =
   let exp = String.concat "|" (List.map (fun ((i, rs), sp) -> string_of_z i ^ "," ^ string_of_z rs ^ "," ^ string_of_z sp) chain) in
   case ^ " ## " ^ exp ^ " ## " ^ (if wf then "1" else "0")
 
+(* M arch os base ip0 n (tech nfill fill_1..fill_nfill ra)*n nmods (mbase msize sym)*      tech: 0 = CFI, 1 = scan
+   answer:  <case line> ## <expected chain: instr,resume,sp,trust|...> ## <mix_wf_layout: 0|1>
+   stack words, chain and precondition all come from the extracted Coq builder of theorem c04_recovers_chain *)
+let mix_line (toks : string array) : string =
+  let pos = ref 1 in
+  let next () = let t = toks.(!pos) in incr pos; t in
+  let arch_s = next () in
+  let os_s = next () in
+  let base_s = next () in
+  let ip0_s = next () in
+  let n = int_of_string (next ()) in
+  let specs = List.init n (fun _ ->
+    let t = z_of_string (next ()) in
+    let nf = int_of_string (next ()) in
+    let fill = List.init nf (fun _ -> z_of_string (next ())) in
+    let ra = z_of_string (next ()) in ((t, fill), ra)) in
+  let nm = int_of_string (next ()) in
+  let modtoks = List.init nm (fun _ -> let b = next () in let s = next () in let y = next () in (b, s, y)) in
+  let mods = List.map (fun (b, s, y) -> ((z_of_string b, z_of_string s), parse_sym y)) modtoks in
+  let archid = z_of_string arch_s in
+  let pw = match int_of_string arch_s with 0 | 2 | 4 -> 4 | _ -> 8 in
+  let ngp = match int_of_string arch_s with 0 -> 7 | 1 -> 14 | 2 -> 12 | 3 | 6 -> 29 | _ -> 9 in
+  let gp0 = List.init ngp (fun _ -> z_of_int 0) in
+  let ((r, words), chain) = layout_mix archid (z_of_string base_s) (z_of_string ip0_s) gp0 specs in
+  let wf = layout_mix_wf archid (z_of_string base_s) (z_of_string ip0_s) mods specs in
+  let case = String.concat " " ([ arch_s; os_s; string_of_z (r_ip r); string_of_z (r_sp r); string_of_z (r_fp r); string_of_z (r_lr r);
+                                  string_of_int ngp ] @ List.init ngp (fun _ -> "0") @
+                                [ "*"; base_s; hex_of_words pw words; string_of_int nm ] @
+                                List.concat_map (fun (b, s, y) -> [ b; s; y ]) modtoks) in
+  let exp = String.concat "|" (List.map (fun (((i, rs), sp), t) ->
+    string_of_z i ^ "," ^ string_of_z rs ^ "," ^ string_of_z sp ^ "," ^ trust_name (int_of_z t)) chain) in
+  case ^ " ## " ^ exp ^ " ## " ^ (if wf then "1" else "0")
+
 let () =
   try
     while true do
       let line = input_line stdin in
       if String.length line > 0 && line.[0] <> '#' then begin
         let toks = Array.of_list (split_ws line) in
-        print_endline (if toks.(0) = "L" then layout_line toks else run_line toks)
+        print_endline (if toks.(0) = "L" then layout_line toks else if toks.(0) = "M" then mix_line toks else run_line toks)
       end
     done
   with End_of_file -> ()
